@@ -143,8 +143,14 @@ func decodeGoCamelCase(s string, isWordBoundary func(rune) bool) (DecodedIdentif
 		}
 	}
 
-	if last := strings.ToLower(s[lastBoundary:]); len(last) > 0 {
-		words = append(words, strings.ToLower(s[lastBoundary:]))
+	if last := s[lastBoundary:]; len(last) > 0 {
+		if last == strings.ToUpper(last) && last != strings.ToLower(last) {
+			// a trailing run of initialisms that doesn't end in an
+			// upper-case letter (e.g. XMLUTF8)
+			words = append(words, extractInitialisms(last)...)
+		} else {
+			words = append(words, strings.ToLower(last))
+		}
 	}
 
 	return words, nil
